@@ -44,6 +44,23 @@ Fixpoint seen_get (cid : Z) (l : seen) : option oitem * bool :=
   | [] => (None, true)
   | (k, v) :: r => if k =? cid then v else seen_get cid r
   end.
+
+(* provenance, rebuilt from the observations alone: the (receive, transmit) pairs that
+   replies to a client and transmit-timestamp reports for it have legitimately created *)
+Definition legit := list (Z * list (Z * Z)).
+Fixpoint legit_get (cid : Z) (l : legit) : list (Z * Z) :=
+  match l with
+  | [] => []
+  | (k, v) :: r => if k =? cid then v else legit_get cid r
+  end.
+Fixpoint legit_add (cid : Z) (p : Z * Z) (l : legit) : legit :=
+  match l with
+  | [] => [(cid, [p])]
+  | (k, v) :: r => if k =? cid then (k, p :: v) :: r else (k, v) :: legit_add cid p r
+  end.
+Definition all_legit (cid : Z) (lg : legit) (ents : list (Z * Z)) : bool :=
+  forallb (fun e => has_pair (fst e) (snd e) (legit_get cid lg)) ents.
+
 Fixpoint seen_set (cid : Z) (v : option oitem * bool) (l : seen) : seen :=
   match l with
   | [] => [(cid, v)]
@@ -83,8 +100,9 @@ Definition item_checks (cid : Z) (it : option oitem) (q : list (Z * Z)) (in_orde
   end.
 
 (* one step: model state, observations so far, the operation and what was observed of it *)
-Definition replay_step (c : config) (st : option tss) (sn : seen) (o : op) (ob : value) (a : acc)
-  : option tss * seen * acc :=
+Definition replay_step (c : config) (st : option tss) (snl : seen * legit) (o : op) (ob : value) (a : acc)
+  : option tss * (seen * legit) * acc :=
+  let sn := fst snl in let lg := snd snl in
   match o, ob with
   | OpHandle cid q rxt now _, VL [VZ 0; VZ org; VZ rx; VZ tx; VZ ref; VZ rxt'; VZ txt'; itv; qv] =>
       match parse_item itv, parse_queue qv with
@@ -92,8 +110,9 @@ Definition replay_step (c : config) (st : option tss) (sn : seen) (o : op) (ob :
           let '(pre, ord) := seen_get cid sn in
           let ord' := ord && match pre with Some p => oi_qval p <? rx | None => true end in
           let sn' := seen_set cid (it, ord') sn in
+          let lg' := legit_add cid (rx, ref) lg in
           let o6 := C06_handle_ok (ents_of pre) q rxt now org rx tx rxt' txt'
-                    && pairs_ordered (ents_of it) in
+                    && pairs_ordered (ents_of it) && all_legit cid lg' (ents_of it) in
           let o7 := item_checks cid it queue ord' && C07_queue_ok (cap real_config) (seen_count sn') queue in
           match st with
           | Some s =>
@@ -104,19 +123,21 @@ Definition replay_step (c : config) (st : option tss) (sn : seen) (o : op) (ob :
                   let g6 := (r_org r =? org) && (r_rx r =? rx) && (r_tx r =? tx) && (r_ref r =? ref)
                             && (o_rxt out =? rxt') && (o_txt out =? txt') && ge in
                   let g7 := gq && queue_agree (o_state out) queue && ge in
-                  (Some (o_state out), sn', acc_and a g6 o6 g7 o7)
-              | None => (None, sn', acc_and a false o6 false o7)
+                  (Some (o_state out), (sn', lg'), acc_and a g6 o6 g7 o7)
+              | None => (None, (sn', lg'), acc_and a false o6 false o7)
               end
-          | None => (None, sn', acc_and a false o6 false o7)
+          | None => (None, (sn', lg'), acc_and a false o6 false o7)
           end
-      | _, _ => (st, sn, acc_bad a)
+      | _, _ => (st, snl, acc_bad a)
       end
   | OpUpdateTx cid rxt txt, VL [VZ 1; VZ txt'; itv; qv] =>
       match parse_item itv, parse_queue qv with
       | Some it, Some queue =>
           let '(pre, ord) := seen_get cid sn in
           let sn' := seen_set cid (it, ord) sn in
-          let o6 := C06_update_ok (ents_of pre) (ents_of it) rxt txt' && pairs_ordered (ents_of it) && (rxt <? txt') in
+          let lg' := legit_add cid (to64 rxt, to64 txt') lg in
+          let o6 := C06_update_ok (ents_of pre) (ents_of it) rxt txt' && pairs_ordered (ents_of it) && (rxt <? txt')
+                    && all_legit cid lg' (ents_of it) in
           let o7 := item_checks cid it queue ord && C07_queue_ok (cap real_config) (seen_count sn') queue in
           match st with
           | Some s =>
@@ -124,16 +145,16 @@ Definition replay_step (c : config) (st : option tss) (sn : seen) (o : op) (ob :
               let '(ge, gq) := items_agree (model_ents (t_state out) cid) it in
               let g6 := (t_txt out =? txt') && ge in
               let g7 := gq && queue_agree (t_state out) queue && ge in
-              (Some (t_state out), sn', acc_and a g6 o6 g7 o7)
-          | None => (None, sn', acc_and a false o6 false o7)
+              (Some (t_state out), (sn', lg'), acc_and a g6 o6 g7 o7)
+          | None => (None, (sn', lg'), acc_and a false o6 false o7)
           end
-      | _, _ => (st, sn, acc_bad a)
+      | _, _ => (st, snl, acc_bad a)
       end
-  | _, _ => (st, sn, acc_bad a)
+  | _, _ => (st, snl, acc_bad a)
   end.
 
-Fixpoint replay (c : config) (st : option tss) (sn : seen) (ops : list op) (obs : list value) (a : acc)
-  : option tss * seen * acc :=
+Fixpoint replay (c : config) (st : option tss) (sn : seen * legit) (ops : list op) (obs : list value) (a : acc)
+  : option tss * (seen * legit) * acc :=
   match ops, obs with
   | [], [] => (st, sn, a)
   | o :: ro, ob :: rb => let '(st', sn', a') := replay_step c st sn o ob a in replay c st' sn' ro rb a'
@@ -170,7 +191,8 @@ Definition run_hist (a o : list value) : acc :=
   | [VL opsv], [VL obs; VL fin] =>
       match parse_ops opsv with
       | Some ops =>
-          let '(st, sn, ac) := replay real_config (Some tss_empty) [] ops obs acc_ok in
+          let '(st, snl, ac) := replay real_config (Some tss_empty) ([], []) ops obs acc_ok in
+          let sn := fst snl in
           match st with
           | Some s =>
               let '(fe, fq) := final_agree s sn fin in
@@ -183,10 +205,27 @@ Definition run_hist (a o : list value) : acc :=
   | _, _ => acc_bad acc_ok
   end.
 
+(* C06 on floods: a newcomer that got state holds exactly the exchange of the one reply it
+   received (nothing recorded for the client it displaced).  ex_state: [cid [rx ref] ents] *)
+Definition run_flood_c06 (o : list value) : option bool :=
+  match o with
+  | [_; _; _; _; _; _; _; _; _; _; VL exst] =>
+      Some (forallb (fun v =>
+        match v with
+        | VL [VZ cid; VL [VZ rx; VZ ref]; VL ents] =>
+            match parse_pairs ents with
+            | Some ps => forallb (fun e => (fst e =? rx) && (snd e =? ref)) ps && pairs_ordered ps
+            | None => false
+            end
+        | _ => false
+        end) exst)
+  | _ => None
+  end.
+
 Definition run_flood (o : list value) : option bool :=
   match o with
   | [VZ capn; VZ _; VZ _; VL [VZ li; VZ lq]; VL exs; VL lens; VL sb; VL se;
-     VL [VZ nitems; VZ nqueue; VZ hv; VZ qiv; VZ qvv; VZ _]; VL base] =>
+     VL [VZ nitems; VZ nqueue; VZ hv; VZ qiv; VZ qvv; VZ _]; VL base; _] =>
       match parse_pairs exs, parse_pairs lens, getZs sb, getZs se, parse_pairs base with
       | Some exs, Some lens, Some sb, Some se, Some base =>
           Some ((capn =? cap real_config) && (li =? capn) && (lq =? capn) &&
